@@ -49,10 +49,10 @@ def get_core_and_active_orbital_indices(
         n_orb = core_orb + n_active_orb
         occupied_indices = []
         for i in range(n_orb):
-            if i not in active_indices:
-                occupied_indices.append(i)
             if len(occupied_indices) == core_orb:
                 break
+            if i not in active_indices:
+                occupied_indices.append(i)
 
     return occupied_indices, active_indices
 
